@@ -124,7 +124,7 @@ fn explore(sc: &Scenario, result_path: &str, checkpoint: &str, replay: bool) {
     let res = rs::panic::catch_unwind(rs::panic::AssertUnwindSafe(|| b.check(move || {
         SCHEDULES.fetch_add(1, Ordering::Relaxed);
         COUNTER.with(|c| *c.borrow_mut() = Some(rs::sync::Arc::new(loom::sync::atomic::AtomicUsize::new(0))));
-        SCRIPT.with(|s| *s.borrow_mut() = p2.script.clone());
+        SCRIPT.with(|s| *s.borrow_mut() = p2.script.clone()); std::sync::once_lock::new_execution();
         std::sync::mpsc::SEND_LOG.with(|l| l.borrow_mut().clear()); FAILURES.with(|f| f.set(0)); CURSORS.with(|c| c.borrow_mut().clear());
         std::sync::mpsc::SEND_HOOK.with(|h| h.set(Some(|m: &dyn rs::any::Any| m.downcast_ref::<anyhow::Result<hdwallet::mnemonic::Mnemonic>>().map(|r| match r { Ok(m) => format!("ok:{m}"), Err(_) => "err".to_string() }))));
         let r = cmd::new::run(options(&sc2));
